@@ -221,7 +221,8 @@ Section SimT.
         destruct mk; cbn [m_open app] in SK'.
         - rewrite (impl_peek_dispatch ps s pos ws 36%N _ W SK' space_36). exact D.
         - rewrite (impl_peek_dispatch ps s pos ws 92%N _ W SK' space_92). exact D.
-        - rewrite (impl_peek_dispatch ps s pos ws 92%N _ W SK' space_92). exact D. }
+        - rewrite (impl_peek_dispatch ps s pos ws 92%N _ W SK' space_92). exact D.
+        - rewrite (impl_peek_dispatch ps s pos ws 36%N _ W SK' space_36). exact D. }
       pose proof (math_run s cx (lsize b) (items_sim s cx (lsize b)) ps (pos + length ws) ws mk b tr fol SD M (le_n _)
                     Wt OKB DL' SK0) as G.
       rewrite node_of_math in G. cbn zeta in G. apply nested in G.
